@@ -9,7 +9,9 @@ package core
 
 //@ iface fileRepository.Set
 //@   params ctx, file
-//@   modifies world.recSeq, world.recTx, world.recKey, world.hasRec
+//@   modifies world.recSeq, world.recTx, world.recKey, world.hasRec, world.logSeq, world.logCid
+//@   ghost world.logSeq := old(world.logSeq) ++ [file.Seq]
+//@   ghost world.logCid := old(world.logCid) ++ [file.ContentId]
 //@   ensures ok:     result == nil ==> world.hasRec[file.ContentId] && world.recSeq[file.ContentId] == file.Seq &&
 //@                      world.recTx[file.ContentId] == file.TxId && world.recKey[file.ContentId] == file.Key
 //@   ensures fail:   result != nil ==> world.hasRec[file.ContentId] == old(world.hasRec[file.ContentId]) && world.recSeq[file.ContentId] == old(world.recSeq[file.ContentId]) &&
@@ -46,7 +48,7 @@ package core
 //@   requires fresh:  f.Seq > 0 && f.Seq <= sequence.seq && forall m *core.Node[model.File] :: m.owner != nil ==> m.v.Seq < f.Seq
 //@   ensures  inv:    ucInv(u)
 
-//@   modifies model.File.*, core.Node[model.File].next, core.Node[model.File].prev, core.Node[model.File].link, core.Node[model.File].linkOf, core.Node[model.File].owner, core.Node[model.File].idx,
+//@   modifies model.File.*, core.Node[model.File].next, core.Node[model.File].prev, core.Node[model.File].link, core.Node[model.File].linkOf, core.Node[model.File].owner, core.Node[model.File].idx, core.Node[model.File].inPool,
 //@            core.List[model.File].elems, core.file.arr, core.file.withoutSearch, core.file.gtx, core.file.gkey, mem[*core.Node[model.File]], backing.owner,
 //@            core.Transaction.store, map[string]*core.file, mapref.mowner
 //@   ensures  txhas:   has(tx.store, f.Key) && len(tx.store[f.Key].l.elems) >= 1 && *tx.store[f.Key].l.elems[len(tx.store[f.Key].l.elems)-1].v == f
@@ -68,10 +70,10 @@ package core
 //@ func (*UseCase).Store
 //@   requires inv:    ucInv(u)
 //@   requires txid:   f.TxId != ""
-//@   modifies model.File.*, core.Node[model.File].next, core.Node[model.File].prev, core.Node[model.File].link, core.Node[model.File].linkOf, core.Node[model.File].owner, core.Node[model.File].idx,
+//@   modifies model.File.*, core.Node[model.File].next, core.Node[model.File].prev, core.Node[model.File].link, core.Node[model.File].linkOf, core.Node[model.File].owner, core.Node[model.File].idx, core.Node[model.File].inPool,
 //@            core.List[model.File].elems, core.file.arr, core.file.withoutSearch, core.file.gtx, core.file.gkey, mem[*core.Node[model.File]], backing.owner,
 //@            core.Transaction.store, core.Transaction.gid, core.Transactions.store, map[string]*core.file, map[string]*core.Transaction, mapref.mowner,
-//@            world.recSeq, world.recTx, world.recKey, world.hasRec, cell[uint64]
+//@            world.recSeq, world.recTx, world.recKey, world.hasRec, world.logSeq, world.logCid, cell[uint64]
 //@   ensures  inv:     ucInv(u)
 //@   ensures  counter: sequence.seq > old(sequence.seq)
 //@   ensures  stored:  result == nil ==> has(u.txStore.store, f.TxId) && has(u.txStore.store[f.TxId].store, f.Key) &&
@@ -131,7 +133,7 @@ package core
 
 //@ func (*UseCase).DeleteTx
 //@   requires inv:    ucInv(u)
-//@   modifies model.File.*, core.Node[model.File].next, core.Node[model.File].prev, core.Node[model.File].link, core.Node[model.File].linkOf, core.Node[model.File].owner, core.Node[model.File].idx,
+//@   modifies model.File.*, core.Node[model.File].next, core.Node[model.File].prev, core.Node[model.File].link, core.Node[model.File].linkOf, core.Node[model.File].owner, core.Node[model.File].idx, core.Node[model.File].inPool,
 //@            core.List[model.File].elems, core.List[model.File].base, core.file.arr, core.file.withoutSearch, core.file.gtx, mem[*core.Node[model.File]], mem[*core.file],
 //@            core.Transaction.gid, map[string]*core.file, map[string]*core.Transaction
 //@   ensures  inv:    ucInv(u)
@@ -240,3 +242,18 @@ package core
 //@   invariant others:    forall g *core.file :: old(g.gtx) != nil && old(g.gtx) != &u.allStore && old(g.gtx) != tx ==> g.l.elems == old(g.l.elems)
 //@   invariant gtxs:      forall g *core.file :: g.gtx == old(g.gtx)
 //@   invariant values:    forall m *core.Node[model.File] :: m.owner != nil ==> m.v.Seq == old(m.v.Seq) && m.v.Key == old(m.v.Key) && m.v.TxId == old(m.v.TxId) && m.v.ContentId == old(m.v.ContentId)
+
+// ---- commit (UpdateTx) ----
+//@ iface fileRepository.RunTransaction
+//@   params ctx, fn
+//@   modifies callback:fn
+//@   ensures  passes:     called != nil ==> result != nil
+//@   ensures  nosentinel: !is(result, fs_db.ErrTxSerialization)
+
+//@ func (*UseCase).UpdateTx
+//@   requires inv:    ucInv(u)
+//@   ensures  gone:   !has(u.txStore.store, oldTxId)
+//@ loop (*UseCase).UpdateTx#1
+//@   invariant inv:       ucInv(u) && tx != nil && toplevel(tx) && txInv(tx) && !tx.WithoutSearch && tx.store == $range
+//@ loop (*UseCase).UpdateTx#2
+//@   invariant inv:       ucInv(u) && tx != nil && toplevel(tx) && txInv(tx) && !tx.WithoutSearch && tx.store == $range
